@@ -263,11 +263,21 @@ Fixpoint split_positions (key : nat -> N) (sorted : list nat) (ns : list nat) : 
     end
   end.
 
+(* `slices.into_par_iter().enumerate().for_each(|(i, slice)| recurse(.., &mbr.sub_mbr(i), slice))`;
+   the slices are disjoint pieces of `permu`, so the result is their concatenation *)
+Fixpoint zslices (rec : N -> list nat -> res (list nat)) (i : nat) (sl : list (list nat)) : res (list nat) :=
+  match sl with
+  | [] => Ok []
+  | s :: st =>
+    bind (rec (N.of_nat i) s) (fun r =>
+    bind (zslices rec (S i) st) (fun rs => Ok (r ++ rs)))
+  end.
+
 (* z_curve_partition_recurse.
    [nq] = 2^D quadrants; [q path idx] = `mbr.region(&points[idx]).unwrap_or(0)`
    for the box reached from the root by the quadrants [path] (top level
    first); [sorter key l] = what `par_sort_unstable_by_key` leaves (tie order
-   unspecified: an oracle, see SfcProofs.sort_contract). *)
+   unspecified: an oracle, see ZCurveProofs.sort_contract). *)
 Fixpoint zrec (nq : nat) (q : list N -> nat -> N) (sorter : (nat -> N) -> list nat -> list nat)
          (order : nat) (path : list N) (permu : list nat) : res (list nat) :=
   match order with
@@ -279,13 +289,7 @@ Fixpoint zrec (nq : nat) (q : list N -> nat -> N) (sorter : (nat -> N) -> list n
       let sorted := sorter key permu in
       bind (split_positions key sorted (seq 1 (nq - 1))) (fun sp =>
       bind (split_at_many sorted sp 0) (fun slices =>
-        (fix go (i : nat) (sl : list (list nat)) : res (list nat) :=
-           match sl with
-           | [] => Ok []
-           | s :: st =>
-             bind (zrec nq q sorter o (path ++ [N.of_nat i]) s) (fun r =>
-             bind (go (S i) st) (fun rs => Ok (r ++ rs)))
-           end) O slices))
+        zslices (fun i s => zrec nq q sorter o (path ++ [i]) s) 0 slices))
   end.
 
 (* `slice.chunks(size)`, size >= 1; on fuel = length (each chunk removes >= 1 element) *)
@@ -369,19 +373,22 @@ Fixpoint lex_ltb (a b : list N) : bool :=
   | x :: a', y :: b' => (x <? y)%N || ((x =? y)%N && lex_ltb a' b')
   end.
 
-(* the id of the chunk that holds position [i] of the permutation
-   (n points, k parts): the first `rem` chunks have ppp+1 elements *)
-Definition chunk_id (n k i : nat) : nat :=
-  let ppp := Nat.div n k in
-  let rem := Nat.modulo n k in
-  let thr := (ppp + 1) * rem in
-  if Nat.ltb i thr then Nat.div i (ppp + 1)
-  else rem + Nat.div (i - thr) (Nat.max 1 ppp).
-
-(* size of part [j] *)
+(* size of part [j] (n points, k parts): the first `n mod k` parts have one more *)
 Definition chunk_size (n k j : nat) : nat :=
   if Nat.ltb j (Nat.modulo n k) then Nat.div n k + 1
   else if Nat.ltb j k then Nat.div n k else 0.
+Definition block_sizes (n k : nat) : list nat := map (chunk_size n k) (seq 0 k).
+
+(* [perm] is cut into consecutive blocks of the given sizes; the points of
+   block number j (counted from [j]) have part id j *)
+Fixpoint runs_ok (parts : list N) (perm : list nat) (sizes : list nat) (j : N) : Prop :=
+  match sizes with
+  | [] => perm = []
+  | s :: st =>
+    exists b rest, perm = b ++ rest /\ length b = s
+      /\ Forall (fun a => nth_opt parts a = Some j) b
+      /\ runs_ok parts rest st (j + 1)%N
+  end.
 
 (* ---- certified checkers ---- *)
 
@@ -399,18 +406,21 @@ Fixpoint sorted_by_code (codes : list (list N)) (perm : list nat) : bool :=
     end
   end.
 
-Definition is_perm_of_range (perm : list nat) (n : nat) : bool :=
-  Nat.eqb (length perm) n
-  && forallb (fun i => Nat.eqb (count_occ Nat.eq_dec perm i) 1) (seq 0 n).
-
-Fixpoint parts_follow_chunks (parts : list N) (perm : list nat) (n k i : nat) : bool :=
-  match perm with
+Fixpoint nodupb (l : list nat) : bool :=
+  match l with
   | [] => true
-  | a :: t =>
-    match nth_opt parts a with
-    | Some p => (p =? N.of_nat (chunk_id n k i))%N && parts_follow_chunks parts t n k (S i)
-    | None => false
-    end
+  | x :: t => negb (existsb (Nat.eqb x) t) && nodupb t
+  end.
+Definition is_perm_of_range (perm : list nat) (n : nat) : bool :=
+  Nat.eqb (length perm) n && nodupb perm && forallb (fun i => Nat.ltb i n) perm.
+
+Fixpoint follow_blocks (parts : list N) (perm : list nat) (sizes : list nat) (j : N) : bool :=
+  match sizes with
+  | [] => match perm with [] => true | _ => false end
+  | s :: st =>
+    Nat.eqb (length (firstn s perm)) s
+    && forallb (fun a => match nth_opt parts a with Some p => (p =? j)%N | None => false end) (firstn s perm)
+    && follow_blocks parts (skipn s perm) st (j + 1)%N
   end.
 
 (* with the run's own permutation as the witness *)
@@ -419,7 +429,7 @@ Definition check_runs (codes : list (list N)) (perm : list nat) (parts : list N)
   Nat.eqb (length codes) n
   && is_perm_of_range perm n
   && sorted_by_code codes perm
-  && parts_follow_chunks parts perm n k 0.
+  && follow_blocks parts perm (block_sizes n k) 0%N.
 
 (* witness-free: ids never decrease when the cell increases, and every part
    has the size the chunking prescribes *)
